@@ -35,6 +35,11 @@ CHECKS['C12'] = dict(
     note='Trusted: rustc MIR dump, vf.engine, crypto contracts that log the nonce each AEAD call receives, provenance-tagged key derivations (idealised KDF), z3. Randomness quality is outside.',
     technique='MIR symbolic execution to z3 (generator arithmetic as bit-vector identities; logged AEAD nonces)', design='DESIGN.md section 2, C12')
 
+CHECKS['C13'] = dict(
+    text='SOCKS5: wire images of well-formed greetings and command requests/responses written from RFC 1928 as symbolic byte arrays (three address types, domain names of every length 1..255, any port, arbitrary trailing tunnel bytes): the real decoders return exactly the requested command and address and consume exactly the request; on every strict prefix (symbolic cut point) they return Ok(None) and leave the buffer untouched, so every segmentation yields the same result; the reply encoders emit [5, method] and [5, status, 0, address]. HTTP: the MIR of recognize_http on every printable-ASCII request target up to the stated length bound against a reference URI grammar over the same symbolic bytes (scheme://host[:port][/path][?query] with reg-name or bracketed IPv6 hosts, paths and queries containing : / ? ://; CONNECT host:port): accepted kind, host bytes and port are exactly the named ones (80 by default), targets naming no host are refused, no str slice can panic.',
+    note='Trusted: rustc MIR dump, vf.engine, vf.strmodel (bounded contracts for str::find/rfind/ends_with/parse from the std documentation), z3. Bound: request targets <= 20 bytes (quick) / 28 (thorough). The socket-facing steps (peek sniffing, the single 1024-byte read after CONNECT, FramedRead::into_inner between the two SOCKS5 decoders, command types other than CONNECT being tunnelled) are async shell code outside the claim.',
+    technique='MIR symbolic execution to z3 (RFC 1928 wire images and a reference URI grammar as symbolic byte arrays; bounded str contracts)', design='DESIGN.md section 2, C13')
+
 NOT_APPLICABLE = {
  'C08': 'property is about long-lived async accept/select! loops under injected socket/TLS/DNS faults; no synchronous core that symbolic execution of MIR or Kani can reach (tokio runtime, epoll, FFI)',
  'C09': 'quantifies over thread interleavings of shared state; Kani has no thread model and Engine M is sequential',
